@@ -10,6 +10,7 @@ import (
 	"encoding/json"
 	"flag"
 	"fmt"
+	"math/rand"
 	"os"
 	"path/filepath"
 	"reflect"
@@ -19,6 +20,8 @@ import (
 	"sync"
 	"sync/atomic"
 	"syscall"
+	"testing"
+	"time"
 )
 
 type Input struct {
@@ -173,10 +176,10 @@ func Bool(label string) bool { return next("bool").Vals[0] != 0 }
 func Int(label string, lo, hi int) int {
 	return next("int").Vals[0]
 }
-func Len(label string, lo, hi int) int   { return next("len").N }
-func Choice(label string, n int) int     { return next("choice").N }
-func Oracle(name string) bool            { return next("oracle").Vals[0] != 0 }
-func Text(label string, n int) string    { return string(Bytes(label, n)) }
+func Len(label string, lo, hi int) int { return next("len").N }
+func Choice(label string, n int) int   { return next("choice").N }
+func Oracle(name string) bool          { return next("oracle").Vals[0] != 0 }
+func Text(label string, n int) string  { return string(Bytes(label, n)) }
 func Bytes(label string, n int) []byte {
 	in := next("bytes")
 	if len(in.Vals) != n {
@@ -236,20 +239,53 @@ func FSStamp() string {
 	return strings.Join(parts, "\n")
 }
 
-func FSFaults(on bool)                  {}
-func EnvSymbolic(name string, max int)  {}
-func EnvFixed(name, val string)         {}
-func EnvUnset(name string)              {}
-func EnvPresent(name string)            {}
-func CI(on bool)                        {}
-func CISymbolic()                       {}
+// TestingT is the *testing.T of the replay test (set by it before the harness runs).
+var TestingT *testing.T
+
+// RunAsSubtest runs f as a real sub-test body: on a goroutine of its own whose stack is rooted
+// in testing.tRunner, with f as the outermost frame.
+func RunAsSubtest(f func(t *testing.T)) {
+	if TestingT == nil {
+		panic(stop{"RunAsSubtest: no testing.T"})
+	}
+	TestingT.Run("sub", f)
+}
+
+// Symlink makes link a symbolic link to the directory target.
+func Symlink(target, link string) {
+	if err := os.Symlink(target, link); err != nil {
+		panic(stop{"symlink: " + err.Error()})
+	}
+}
+
+// FileStamp is a signature of one file that changes whenever the file is rewritten.
+func FileStamp(path string) string {
+	info, err := os.Stat(path)
+	if err != nil {
+		return "<missing>"
+	}
+	ino := uint64(0)
+	if st, ok := info.Sys().(*syscall.Stat_t); ok {
+		ino = st.Ino
+	}
+	return fmt.Sprintf("file:%d:%d:%d", ino, info.Size(), info.ModTime().UnixNano())
+}
+
+func FSFaults(on bool)                 {}
+func EnvSymbolic(name string, max int) {}
+func EnvFixed(name, val string)        {}
+func EnvUnset(name string)             {}
+func EnvPresent(name string)           {}
+func CI(on bool)                       {}
+func CISymbolic()                      {}
 func Trimpath(on bool) {
 	if on {
 		out.Inapplicable = "-trimpath builds are not reproduced natively"
 	}
 }
-func Shared(p any)          {}
+func Shared(p any)                {}
 func SharedGlobals(prefix string) {}
+
 // FrameFile tags the calling frame with a source file name for the symbolic
 // runtime.Caller stub. Natively the frames are real: harness helper functions
 // live in non-test files of the package and the harness entry is called from
@@ -283,9 +319,29 @@ func TestFileDir() string {
 	}
 	return ""
 }
-func Symbolic() bool        { return false }
-func Yield()                {}
-func Preemptions() int      { return 0 }
+func Symbolic() bool { return false }
+
+// Stagger (stress replays only) delays the calling goroutine by a random time of up to 10 ms, so
+// that goroutines started together begin their work in a random order and at random distances.
+func Stagger() {
+	if v := os.Getenv("VX_STRESS"); v == "" || v == "0" || v == "1" {
+		return
+	}
+	time.Sleep(time.Duration(rand.Intn(10000)) * time.Microsecond)
+}
+
+// Jitter (stress replays only) yields the processor a random number of times, so that repeated
+// runs of a concurrent scenario meet in different interleavings.
+func Jitter() {
+	if v := os.Getenv("VX_STRESS"); v == "" || v == "0" || v == "1" {
+		return
+	}
+	for k := rand.Intn(40); k > 0; k-- {
+		runtime.Gosched()
+	}
+}
+func Yield()           {}
+func Preemptions() int { return 0 }
 
 func Freeze(p any, what string) {
 	v := reflect.ValueOf(p)
